@@ -115,20 +115,18 @@ def loopF (cond : σ → Except P Bool × σ) (post : σ → Res Flow σ P) (bod
     statement, which aligns budget exhaustion with `loopF` (immaterial: every theorem is ∀ N). -/
 def loopC (cond : σ → Except P Bool × σ) (post : σ → Res Flow σ P) (body : σ → Res Sig σ P) :
     Nat → Bool → σ → Res Sig σ P
-  | n, skipPost, st =>
+  | 0, skipPost, st => (if skipPost then .done .fall st else post st).bind fun _ _ => .oob
+  | n+1, skipPost, st =>
     (if skipPost then .done .fall st else post st).bind fun _ st0 =>
-      match n with
-      | 0 => .oob
-      | n+1 =>
-        match cond st0 with
-        | (.error p, st1) => .panic p st1
-        | (.ok false, st1) => .done .normal st1
-        | (.ok true, st1) =>
-          (body st1).bind fun s st2 =>
-            match s with
-            | .normal | .cont => loopC cond post body n false st2
-            | .brk => .done .normal st2
-            | .ret => .done .ret st2
+      match cond st0 with
+      | (.error p, st1) => .panic p st1
+      | (.ok false, st1) => .done .normal st1
+      | (.ok true, st1) =>
+        (body st1).bind fun s st2 =>
+          match s with
+          | .normal | .cont => loopC cond post body n false st2
+          | .brk => .done .normal st2
+          | .ret => .done .ret st2
 
 /-- leaving a `func() Seq` literal -/
 def closeThunk : Flow → σ → Res Sig σ P
